@@ -194,14 +194,14 @@ def _any_kind_pol(conds) -> Optional[bool]:
     return None
 
 
-@rule("KIND-BRANCH", ["C15"], floor=12, section="4/C15")
+@rule("KIND-BRANCH", ["C15", "C10"], floor=12, section="4/C15")
 def kind_branch(ctx: Ctx) -> List[Ob]:
     """kind-aware queries: the any-kind branch reads the unfiltered child/sibling list, the kind branch compares _kind with the requested (or own) kind, and nothing else is filtered"""
     obs: List[Ob] = []
     m = ctx.model
 
-    def T(f, label, ok, why="", node=None):
-        obs.append(ctx.tri("KIND-BRANCH", ["C15"], f, label, node, ok, why))
+    def T(f, label, ok, why="", node=None, props=("C15",)):
+        obs.append(ctx.tri("KIND-BRANCH", list(props), f, label, node, ok, why))
 
     def valued(f):
         return [c for c in exit_cases(ctx, f, ("return",)) if c.value is not None and not (isinstance(c.value, ast.Constant) and c.value.value is None)
@@ -253,7 +253,7 @@ def kind_branch(ctx: Ctx) -> List[Ob]:
         ok = d is not None and norm(d) == "False"
         T(f, f"{name}: any_kind defaults to False", ok, "kind-aware by default")
         reads = [x for x in ast.walk(f.node) if isinstance(x, ast.Name) and x.id == "any_kind" and isinstance(x.ctx, ast.Load)]
-        T(f, f"{name}: the any_kind option is consulted", bool(reads), "the option has no effect: any_kind=True still filters by kind (or the other way round)")
+        T(f, f"{name}: the any_kind option is consulted", bool(reads), "the option has no effect: any_kind=True still filters by kind (or the other way round)", props=("C15", "C10"))
         own = {"self._kind", "self.kind"}
         for bname, bs in ctx.env.scope(f).bindings.items():
             if any(x.kind == "val" and x.expr is not None and norm(x.expr) in ("self.kind", "self._kind") for x in bs):
@@ -298,12 +298,12 @@ def kind_branch(ctx: Ctx) -> List[Ob]:
         f = m.func(f"TypedNode.{name}")
         anyc = [c for c in valued(f) if _any_kind_pol(c.conds) is True]
         ok = None if not anyc else all(norm(c.value) == f"self is self._parent._children[{idx}]" for c in anyc)
-        T(f, f"{name}(any_kind=True) is the untyped identity test", ok, "")
+        T(f, f"{name}(any_kind=True) is the untyped identity test", ok, "", props=("C15", "C10"))
     for name, idx in (("first_sibling", "0"), ("last_sibling", "-1")):
         f = m.func(f"TypedNode.{name}")
         anyc = [c for c in valued(f) if _any_kind_pol(c.conds) is True]
         ok = None if not anyc else all(any(norm(v) == f"self._parent._children[{idx}]" for v in reaching_values(ctx, f, c.stmt, c.value)) for c in anyc)
-        T(f, f"{name}(any_kind=True) is the untyped end of the list", ok, "")
+        T(f, f"{name}(any_kind=True) is the untyped end of the list", ok, "", props=("C15", "C10"))
     f = m.func("TypedTree.iter_by_type")
     ys = exit_cases(ctx, f, ("yield",))
     ky = [c for c in ys if _any_kind_pol(c.conds) is not True]
